@@ -230,6 +230,19 @@ where
         let a: Vec<(Option<usize>, usize)> = DfsPred::new(g, sources.iter().copied()).collect();
         let b: Vec<(Option<usize>, usize)> = DfsPred::new(g, lazy()).collect();
         ensure!(a == b, "DfsPred<{name}>: sources passed through `filter` give {b:?}, passed directly {a:?}");
+        {
+            let q = gen::shared_queue(sources);
+            let b: Vec<(Option<usize>, usize)> = DfsPred::new(g, gen::shared_cursor(&q)).collect();
+            ensure!(a == b, "DfsPred<{name}>: sources from a draining iterator whose clones share their cursor give {b:?}, passed directly {a:?}");
+            let q = gen::shared_queue(sources);
+            let x: Vec<usize> = Dfs::new(g, sources.iter().copied()).collect();
+            let y: Vec<usize> = Dfs::new(g, gen::shared_cursor(&q)).collect();
+            ensure!(x == y, "Dfs<{name}>: sources from a draining iterator whose clones share their cursor give {y:?}, passed directly {x:?}");
+            let q = gen::shared_queue(sources);
+            let x: Vec<(usize, usize)> = DfsDist::new(g, sources.iter().copied()).collect();
+            let y: Vec<(usize, usize)> = DfsDist::new(g, gen::shared_cursor(&q)).collect();
+            ensure!(x == y, "DfsDist<{name}>: sources from a draining iterator whose clones share their cursor give {y:?}, passed directly {x:?}");
+        }
         let h = gen::hint_pick(sources.len(), a.len() + sources.iter().sum::<usize>());
         let b: Vec<(Option<usize>, usize)> = DfsPred::new(g, gen::hinted(sources.to_vec(), h)).collect();
         ensure!(a == b, "DfsPred<{name}>: sources from an iterator with size_hint {h:?} give {b:?}, passed directly {a:?}");
